@@ -50,6 +50,16 @@ theorem imsaak_interval (p : Params α) (hF : nonZero p.intFajr = false) (hI : n
     imsaakParams1 p = { p with minFajr := p.minFajr - p.intImsaak } := by
   simp [imsaakParams1, hF, hI]
 
+/-- **an Imsaak interval together with a Fajr interval**: Imsaak is computed as a Fajr defined by
+    the interval `FajrInterval + ImsaakInterval` before Shurooq (`isha_fajr_interval`: an interval
+    Fajr is Shurooq minus its interval), i.e. the Imsaak interval before the interval Fajr - both
+    in minutes, one sum, nothing else changed (the unit slip of seed C12h breaks the correspondence
+    that ties this text to the code) -/
+theorem imsaak_interval_with_fajr_interval (p : Params α) (hF : nonZero p.intFajr = true)
+    (hI : Sc.eqb p.intImsaak 0.0 = false) :
+    imsaakParams1 p = { p with intFajr := p.intFajr + p.intImsaak } := by
+  simp [imsaakParams1, hF, hI]
+
 /-- **when Fajr is extreme** the parameter set Imsaak is recomputed with is the caller's with Fajr's
     offset reduced by the Imsaak interval, or by 1.5 minutes if none is set (parameter-level
     statement; `imsaak_extreme_branch` says that this set is the one used, `imsaak_extreme_is_flagged`
